@@ -29,7 +29,7 @@ ASSUMPTIONS = [
     "binary numeric fields have size 2, 4 or 8 (the property's domain)",
 ]
 TRUSTED = []
-NOT_THEOREMS = ['character shape of float renderings outside the range of the C01 float laws (E notation for non-zero subnormal values; F notation is covered for every finite double): hypothesis of Props.C02.field_write_of_raw, evaluated per case; for every other admitted value it is a theorem (Props.C02.shape_dom, field_write_dom, line_write_dom)']
+NOT_THEOREMS = ['character shape of float renderings outside the range of the C01 float laws (E notation for non-zero values below 10^(decimals-322); F notation is covered for every finite double): hypothesis of Props.C02.field_write_of_raw, evaluated per case; for every other admitted value it is a theorem (Props.C02.shape_dom, field_write_dom, line_write_dom)']
 EXHAUSTIVE = {"quick": True, "thorough": True}
 MARK = "abcdefghijklmnopqrstuvwxyz"
 
